@@ -31,6 +31,7 @@ type c04conc struct {
 	setup   []c04ev
 	threads [][]c04ev
 	bound   [2]int // preemption bound quick, thorough (-1 = not run in that tier)
+	mkfx    func() *c04fx
 }
 
 func (c c04conc) id() string {
@@ -242,6 +243,12 @@ func c04concScenarios() []c04conc {
 		{name: "suffrage-becomes-known", n: 3, th: 67, unknown: true, bound: [2]int{1, 2},
 			setup: []c04ev{v("n0", p1, "A", "acc:32"), v("n1", p1, "A", "acc:32")}, threads: [][]c04ev{
 				{{kind: "known"}, {kind: "count"}}, {v("n2", p1, "A", "acc:32")}}},
+		// a node joined between heights 32 and 33: a ballot of (33,0) carrying the ACCEPT voteproof of (32,0) signed by two old
+		// nodes and the joined node races with a sign-fact vote and Count; the last point is INIT(32) majority
+		{name: "suffrage-join-carried-voteproofs", n: 4, th: 67, bound: [2]int{1, 2},
+			mkfx:  func() *c04fx { return c04newFxChange(4, 67, []int{0, 1, 2}, []int{0, 1, 2, 3}, 32) },
+			setup: []c04ev{{kind: "setlast", p: P(32, 0, false), maj: true}}, threads: [][]c04ev{
+				{v("n1", P(33, 0, false), "A", "accs:32:n0,n1,n3")}, {v("n0", P(33, 0, false), "A", ""), {kind: "count"}}}},
 		// two ballot voters (each spawning the deferred count and the new-ballot callback) complete a draw
 		{name: "ballot-voters-draw", n: 2, th: 100, bound: [2]int{1, 2}, threads: [][]c04ev{
 			{v("n0", p1, "A", "acc:32")}, {v("n1", p1, "B", "acc:32")}}},
@@ -264,6 +271,9 @@ func TestVerifC04Conc(t *testing.T) {
 			fxs[key] = c04newFx(c.n, c.th)
 		}
 		fx := fxs[key]
+		if c.mkfx != nil {
+			fx = c.mkfx()
+		}
 		id := c.id()
 		bound := c.bound[tier]
 		r.Set("preemption_bound_"+c.name, bound)
